@@ -8,7 +8,9 @@ request  `{"op":"script","P":{…},"legacy":false,"events":[["add"],["rec",j,b,o
          `{"op":"proto","P":{…},"legacy":false,"events":[["add"],["step",j,obj],…]}`
 `P`      `{"max_steps":n,"kind":"idle"|"const"|"sha"|"median", "stop_step":…, "min_steps":…,
            "rf":…, "mesr":…, "min_competing":…, "min_fully_completed":…, "interval":…, "eps":"n/d"}`
-`obj`    `"n/d"` (a number) or `{"F":"tag"}` (a non-Number objective)
+`obj`    `"n/d"` (a finite number), `"inf"` / `"-inf"` (the infinities) or `{"F":"tag"}` (a non-Number objective)
+`variant` `"preNan"` = MedianStopper before the fix "an undefined median falls back to the lower middle value"
+         (`"legacy":true` = the pinned MedianStopper, before both fixes); default: the repaired code
          `{"op":"check","P":{…},"trace":[[job,budget,obj,stopped],…]}`  → `{"ok":true,"spec":bool,"bad":index|null}`
          (the verified checker `checkStopTrace`, theorem `C16_checker`, on a trace of the real stoppers)
 reply    `{"ok":true,"trace":[{"r":true|false|null|"<error>","md":{…metadata of the acting job…}},…],
@@ -19,11 +21,15 @@ open Lean DH.Wire DH.Stopper
 
 def jObj (j : Json) : Except String Obj :=
   match j with
-  | .str s => do return .num (← parseRat s)
+  | .str "inf" => .ok (.num .posInf)
+  | .str "-inf" => .ok (.num .negInf)
+  | .str s => do return .num (.fin (← parseRat s))
   | _ => do return .fail (← jStr (← field j "F"))
 
 def objJson : Obj → Json
-  | .num q => ofRat q
+  | .num (.fin q) => ofRat q
+  | .num .posInf => Json.str "inf"
+  | .num .negInf => Json.str "-inf"
   | .fail t => Json.mkObj [("F", t)]
 
 def keyStr : MKey → String
@@ -81,7 +87,7 @@ def viewOf (s : Sys) (j : Nat) : List (String × Json) :=
 
 def entry (r : Json) (s : Sys) (j : Nat) : Json := Json.mkObj ([("r", r), ("md", mdOf s j)] ++ viewOf s j)
 
-def runScript (legacy : Bool) (P : Params) : Sys → List Json → Except String (Sys × List Json)
+def runScript (legacy : Variant) (P : Params) : Sys → List Json → Except String (Sys × List Json)
   | s, [] => .ok (s, [])
   | s, e :: es => do
     let a ← e.getArr?
@@ -102,7 +108,7 @@ def runScript (legacy : Bool) (P : Params) : Sys → List Json → Except String
     let (s2, outs) ← runScript legacy P s1 es
     return (s2, out :: outs)
 
-def runProto (legacy : Bool) (P : Params) : Sys → List Json → Except String (Sys × List Json)
+def runProto (legacy : Variant) (P : Params) : Sys → List Json → Except String (Sys × List Json)
   | s, [] => .ok (s, [])
   | s, e :: es => do
     let a ← e.getArr?
@@ -125,9 +131,15 @@ def runProto (legacy : Bool) (P : Params) : Sys → List Json → Except String 
 def handle (j : Json) : Except String Json := do
   let op ← jStr (← field j "op")
   let P ← jParams (← field j "P")
-  let legacy ← match j.getObjVal? "legacy" with
+  let legacyB ← match j.getObjVal? "legacy" with
     | .ok v => jBool v
     | .error _ => .ok false
+  let legacy : Variant ← match j.getObjVal? "variant" with
+    | .ok (.str "preNan") => pure Variant.preNan
+    | .ok (.str "preRung") => pure Variant.preRung
+    | .ok (.str "fixed") => pure Variant.fixed
+    | .ok _ => throw "unknown variant"
+    | .error _ => pure (if legacyB then Variant.preRung else Variant.fixed)
   if op == "check" then
     -- the verified checker (theorem C16_checker) on a trace of the REAL stoppers
     let tr ← jList (fun e => do
